@@ -462,7 +462,8 @@ def panic_freedom(prog, rep):
         w = W(prog, set(roots), r)
         m = ip.Machine(prog, w)
         try:
-            outs = m.run(m.start(r, [ty_.fresh(prog, t, ("arg", i)) for i, t in enumerate(f["inputs"])]))
+            st0 = ip.State()
+            outs = m.run(m.start(r, ty_.fresh_args(prog, st0, f["inputs"]), st0))
         except AnalysisError as e:
             rep.analysis_error("panic-freedom", r, e, b.where())
             continue
